@@ -8,6 +8,7 @@ pub mod c03;
 pub mod c04;
 pub mod c05;
 pub mod c06;
+pub mod c11;
 pub mod hist;
 
 pub fn dispatch(args: &Args) -> i32 {
@@ -18,6 +19,7 @@ pub fn dispatch(args: &Args) -> i32 {
         "C04" => c04::run(args),
         "C05" => c05::run(args),
         "C06" => c06::run(args),
+        "C11" => c11::run(args),
         "selfcheck" => {
             let ok = crate::vclock::self_check();
             println!("virtual clock self-check: {ok}");
